@@ -6,7 +6,7 @@ from typing import Dict, List, Optional
 
 from ..core import Ctx
 from ..model import dotted, kwarg, norm, walk_no_nested
-from .common import assigned_value, enclosing, expand_locals, pargs, resolve_local
+from .common import assigned_value, bool_equiv, enclosing, expand_locals, pargs, resolve_local
 
 ROLES = ("annotator", "label", "start", "end")
 
@@ -48,16 +48,24 @@ def run(ctx: Ctx):
     wcalls = [c for c in walk_no_nested(w.node) if isinstance(c, ast.Call) and norm(c.func) == "csv.writer"]
     ctx.require(len(wcalls) == 1, "R-C18-1", "csv.writer call not found in to_csv")
     wc = wcalls[0]
-    rows = [c for c in walk_no_nested(w.node) if isinstance(c, ast.Call) and isinstance(c.func, ast.Attribute) and c.func.attr == "writerow"]
-    ctx.require(len(rows) == 1, "R-C18-1", "single writerow call expected")
+    rows = [c for c in walk_no_nested(w.node) if isinstance(c, ast.Call) and isinstance(c.func, ast.Attribute) and c.func.attr in ("writerow", "writerows")]
+    ctx.require(len(rows) == 1, "R-C18-1", "single writerow / writerows call expected")
     loop = enclosing(w.node, rows[0], (ast.For,))
     wr: Dict[str, int] = {}
     n_cols = -1
     ok_iter = False
-    if loop and norm(loop[-1].iter) == ws and isinstance(loop[-1].target, ast.Tuple):
-        a, u = norm(loop[-1].target.elts[0]), norm(loop[-1].target.elts[1])
+    it_node = tg_node = row_node = None
+    if rows[0].func.attr == "writerows" and rows[0].args:
+        # writer.writerows(<row> for annotator, unit in self)
+        comp = expand_locals(w.node, rows[0].args[0])
+        if isinstance(comp, (ast.GeneratorExp, ast.ListComp)) and len(comp.generators) == 1 and not comp.generators[0].ifs:
+            it_node, tg_node, row_node = comp.generators[0].iter, comp.generators[0].target, comp.elt
+    elif loop:
+        it_node, tg_node, row_node = loop[-1].iter, loop[-1].target, rows[0].args[0]
+    if it_node is not None and norm(it_node) == ws and isinstance(tg_node, ast.Tuple):
+        a, u = norm(tg_node.elts[0]), norm(tg_node.elts[1])
         ok_iter = True
-        row = expand_locals(w.node, rows[0].args[0])
+        row = expand_locals(w.node, row_node)
         if isinstance(row, (ast.List, ast.Tuple)):
             n_cols = len(row.elts)
             for i, e in enumerate(row.elts):
@@ -65,7 +73,7 @@ def run(ctx: Ctx):
                 role = {a: "annotator", f"{u}.annotation": "label", f"{u}.segment.start": "start", f"{u}.segment.end": "end"}.get(t)
                 if role:
                     wr[role] = i
-    ctx.check(ok_iter, "R-C18-1", w, loop[-1] if loop else None, "one row per (annotator, unit) of the continuum", key="writer-iter")
+    ctx.check(ok_iter, "R-C18-1", w, loop[-1] if loop else rows[0], "one row per (annotator, unit) of the continuum", key="writer-iter")
     ctx.check(sorted(wr) == sorted(ROLES) and n_cols == 4, "R-C18-1", w, rows[0],
               f"writer columns: {wr}", bad_detail=f"writer does not emit the four roles exactly once: {wr}", key="writer-roles")
     ctx.check(kwarg(wc, "delimiter") is not None and norm(kwarg(wc, "delimiter")) == "delimiter" and "delimiter" in w.params, "R-C18-1", w, wc,
@@ -182,7 +190,7 @@ def run(ctx: Ctx):
         T = tloops[0]
         tn = T.target.id
         flt = [s for s in T.body if isinstance(s, ast.If) and len(s.body) == 1 and isinstance(s.body[0], ast.Continue)]
-        okf = len(flt) == 1 and norm(flt[0].test) in (f"selected_tiers is not None and {tn} not in selected_tiers",)
+        okf = len(flt) == 1 and bool_equiv(flt[0].test, ast.parse(f"selected_tiers is not None and {tn} not in selected_tiers", mode="eval").body) is True
         ctx.check(okf, "R-C18-4", g, flt[0] if flt else T, "a tier is skipped iff selected_tiers is given and does not contain it",
                   bad_detail="tier selection differs from `selected_tiers is not None and tier not in selected_tiers`", key=f"{qn}:filter")
         inner = [L for L in T.body if isinstance(L, ast.For)]
@@ -211,6 +219,18 @@ def run(ctx: Ctx):
                     return _copy.deepcopy(self.env[n.id])
                 return n
 
+        def _fold_flag(e, flag: bool):
+            class F(ast.NodeTransformer):
+                def visit_IfExp(self, n):
+                    self.generic_visit(n)
+                    t = norm(n.test)
+                    if t == "use_tier_as_annotation":
+                        return n.body if flag else n.orelse
+                    if t == "not use_tier_as_annotation":
+                        return n.orelse if flag else n.body
+                    return n
+            return F().visit(e)
+
         def evaluate(stmts, flag: bool, env: dict, adds: list) -> bool:
             for s in stmts:
                 if isinstance(s, ast.Assign) and len(s.targets) == 1 and isinstance(s.targets[0], ast.Name):
@@ -219,8 +239,8 @@ def run(ctx: Ctx):
                     take_body = flag == (norm(s.test) == "use_tier_as_annotation")
                     if not evaluate(s.body if take_body else s.orelse, flag, env, adds):
                         return False
-                elif isinstance(s, ast.Expr) and isinstance(s.value, ast.Call) and norm(s.value.func) == f"{gs}.add" and not s.value.keywords:
-                    adds.append((s.value, [norm(_Subst(env).visit(_copy.deepcopy(a))) for a in s.value.args]))
+                elif isinstance(s, ast.Expr) and isinstance(s.value, ast.Call) and norm(s.value.func) == f"{gs}.add":
+                    adds.append((s.value, [norm(_fold_flag(_Subst(env).visit(_copy.deepcopy(a)), flag)) for a in pargs(M, s.value)]))
                 else:
                     return False
             return True
